@@ -61,7 +61,11 @@ class SwitchOpGen(OpGen):
 
             self.queue = [edit] * rng.randint(2, 6) + [
                 lambda tr: {"op": "features", "enable": [lk], "recompute": True}]
-            return {"op": "features", "disable": [lk]}
+            # often together with keys of OTHER annotators in the same request
+            mixed = [lk] + (rng.sample(free, rng.randint(1, min(2, len(free))))
+                            if free and rng.random() < 0.6 else [])
+            rng.shuffle(mixed)
+            return {"op": "features", "disable": mixed}
         if not free:
             return {"op": "features", "enable": ["no_such_feature"]}
         ks = rng.sample(free, rng.randint(1, min(3, len(free))))
